@@ -27,15 +27,17 @@ def get_number_of_partitions(m: nx.Graph) -> int:
 
 
 def refine_partitions(m: nx.Graph) -> Generator[nx.Graph, None, None]:
+    # Iterative: long chains need thousands of refinement rounds, recursing once per
+    # round would exceed the interpreter's recursion limit.
+    while True:
+        m_refined = partition_molecule_by_attribute(m, PARTITION)
 
-    m_refined = partition_molecule_by_attribute(m, PARTITION)
+        if get_number_of_partitions(m_refined) == get_number_of_partitions(m):
+            # No more refinement possible.
+            yield m_refined
+            return
 
-    if get_number_of_partitions(m_refined) == get_number_of_partitions(m):
-        # No more refinement possible.
-        yield m_refined
-        return
-
-    yield from refine_partitions(m_refined)
+        m = m_refined
 
 
 def assign_canonical_labels(m: nx.Graph) -> dict[int, int]:
